@@ -61,8 +61,8 @@ def classify(unit: dict[str, Any], call: dict[str, Any], ref: list[list[Any]], g
     if a[0] != b[0]:
         what = f"event-sequence:{a[0]}->{b[0]}"
     tags = ""
-    if free:
-        # free-form units: the construct tags of the unit narrow the mechanism (stable: they name constructs, not cases)
+    if free and a[0] in ("ret", "yield", "stop") and b[0] == a[0]:
+        # free-form units: the representation class of the differing value narrows the mechanism
         ta = _types(a[-1]), _types(b[-1])
         tags = ":" + "->".join(ta) if ta[0] != ta[1] else ":" + ta[0]
     return f"{what}:{kind}{tags}", f"{what} differs: interpreted {str(a)[:200]} vs compiled {str(b)[:200]}"
